@@ -4,12 +4,14 @@ CONSTANTS
   MaxOps = 4
   Free = TRUE
   ReportMeansDead = FALSE
+  RemDeadMeansDead = FALSE
   Hist = FALSE
   Cases <- FreeCases
 INVARIANT TypeOK
 INVARIANT Inv_Truthful
 INVARIANT Inv_DeadFast
 INVARIANT Inv_Force
+INVARIANT Inv_Stable
 INVARIANT Inv_NoSelfKill
 PROPERTY Live_Returns
 CHECK_DEADLOCK FALSE
